@@ -93,5 +93,7 @@ Fixpoint mismatches_from (i : N) (cs : list case) : list (N * N) :=
       if N.eqb code 0 then mismatches_from (N.succ i) r else (i, code) :: mismatches_from (N.succ i) r
   end.
 Definition mismatches (cs : list case) : list (N * N) := mismatches_from 0 cs.
+(* re-export so that building Runner.vo builds the persistence runner too *)
+Require RopeVerif.C12.PersistRunner.
 Definition count_wf (cs : list case) : N :=
   N.of_nat (length (filter (fun c => wf_py (c_val c)) cs)).
